@@ -23,6 +23,7 @@ type Ctx struct {
 	own *own.Analysis
 
 	floads map[*types.Var][]ssa.Value
+	tm     *textModel
 }
 
 func NewCtx(p *load.Prog, prop, config string) *Ctx {
